@@ -49,8 +49,8 @@ def RangeOK (mint maxt : Int) : Prop :=
     time-sorted inside the chunk's meta range). Then the written series, read back as (labels, samples),
     are exactly — same order, nothing lost, nothing invented, nothing duplicated — the source series that
     have at least one sample in `[mint, maxt]` not covered by a tombstone, each with exactly those samples.
-    This is the headline clause of the property for a single source, at full strength (partial = the
-    k-way merge of several sources is `populate_samples_full`, not proved). -/
+    This is the headline clause of the property for a single source, at full strength (partial = one
+    source; several sources: `populate_samples_nohint` / `populate_samples_merge`). -/
 theorem populate_samples_partial (m : Merger) (b : Block) (mint maxt : Int) (o : Output)
     (wf : ∀ s ∈ b.series, SeriesWF s) (hr : RangeOK mint maxt)
     (h : populate m [b] mint maxt = .ok o) :
@@ -160,7 +160,7 @@ theorem compact_two_blocks_example :
       some ([([("a", "1")], [⟨1, .float, 1⟩]), ([("a", "2")], [⟨2, .float, 2⟩, ⟨12, .float, 3⟩])], ⟨2, 3, 3, 3, 0⟩) := by
   decide
 
-/-! ### several sources: stated, not proved -/
+/-! ### several sources -/
 
 /-- the sorted, de-duplicated timestamps of a list of sample lists -/
 def unionTs (xss : List (List Sample)) : List Int :=
@@ -169,10 +169,9 @@ def unionTs (xss : List (List Sample)) : List Int :=
 /-- The full headline clause for any number of source blocks under the compacting merger: per label set,
     the timestamps written are the sorted de-duplicated union of the sources' visible timestamps, every
     written sample is a visible sample of some source, and a label set is written iff some source has a
-    visible sample for it. NOT PROVED: it needs C19's `merge_sets_sorted_unique_full`,
-    `compact_chunks_full` and `chain_next_total_full` (the heap-based k-way merges of `storage/merge.go`),
-    which are themselves unproved; for several sources the tie is the correspondence suite `compact`
-    (model = implementation, line for line) and the judge, which evaluates exactly this statement. -/
+    visible sample for it.  FALSE as literally stated (`populate_samples_full_witness`: counter-reset
+    hints are reset by the chain); proved in repaired form as `populate_samples_nohint` /
+    `populate_samples_merge`, on top of C19's `merge_sets_sorted_unique` and `compact_chunks`. -/
 def populate_samples_full : Prop :=
   ∀ (blocks : List Block) (mint maxt : Int) (o : Output),
     (∀ b ∈ blocks, (∀ s ∈ b.series, SeriesWF s) ∧ Asc (b.series.map (·.labels))) → RangeOK mint maxt →
